@@ -119,6 +119,7 @@ type OpResult struct {
 	Budget       bool     `json:"budget,omitempty"`
 	Hang         string   `json:"hang,omitempty"`
 	Inconclusive bool     `json:"inconclusive,omitempty"`
+	Aliased      string   `json:"aliased,omitempty"`
 	Crash        bool     `json:"crash,omitempty"`
 	Fd1          BStr     `json:"fd1,omitempty"`
 	Fd2          BStr     `json:"fd2,omitempty"`
@@ -157,7 +158,18 @@ func (e *InjectedErr) Error() string {
 	return fmt.Sprintf("injected callee error #%d", e.ID)
 }
 
+// heldSlice remembers a slice the library handed to the program (arguments given
+// to Execute / a handler, remaining arguments returned by ParseArgs) together
+// with a copy taken at that moment: the program owns it from then on, so later
+// calls on the parser must not change it.
+type heldSlice struct {
+	what string
+	live []string
+	snap []string
+}
+
 type RunCtx struct {
+	held      []heldSlice
 	bytesSeen int64 // bytes of input the boot has taken in so far (argv, INI text, stored values)
 	b         *Built
 	sc        *Scenario
@@ -227,6 +239,9 @@ func (c *RunCtx) callee(kind, who string, args []string) error {
 	n := c.counts[kind]
 	c.counts[kind] = n + 1
 	call := Call{Kind: kind, Who: BStr(who), Args: bstrs(args)}
+	if (kind == "execute" || kind == "handler") && len(args) > 0 {
+		c.held = append(c.held, heldSlice{what: "the arguments passed to " + kind + " " + who, live: args, snap: append([]string{}, args...)})
+	}
 	var err error
 	for _, f := range c.sc.Callee {
 		if f.Kind == kind && f.Nth == n {
@@ -397,6 +412,15 @@ func Execute(sc *Scenario, sched *simrt.Schedule) (out *Outcome) {
 		}
 		runOp(w, b, op, &res)
 		opsExecuted++
+		for _, h := range ctx.held {
+			for i := range h.snap {
+				if i >= len(h.live) || h.live[i] != h.snap[i] {
+					res.Aliased = fmt.Sprintf("%s were %q and have been changed to %q by a later call", h.what, h.snap, h.live)
+					break
+				}
+			}
+		}
+		b.registerPointers() // groups added while parsing (built-in help) get their rank too
 		res.Ticks = w.Ticks
 		if os.Getenv("SIM_TICKSTATS") != "" {
 			n := int64(len(op.Data)) + 1
@@ -531,12 +555,17 @@ func runOp(w *simrt.World, b *Built, op *Op, res *OpResult) {
 		rest, err := b.P.ParseArgs(strs(op.Argv))
 		classifyErr(err, res)
 		res.Rest = bstrs(rest)
+		if len(rest) > 0 {
+			cur.held = append(cur.held, heldSlice{what: "the remaining arguments an earlier ParseArgs returned", live: rest, snap: append([]string{}, rest...)})
+		}
 		res.FaultsFired = w.Fd1.Fired + w.Fd2.Fired
 		w.Fd1.Faults, w.Fd2.Faults = nil, nil
 	case "newini":
 		b.KeptIni = flags.NewIniParser(b.P)
 	case "setopts":
 		b.P.Options = flags.Options(op.IniOpts)
+	case "setenvdelim":
+		b.P.EnvNamespaceDelimiter = string(op.Text)
 	case "iniread":
 		// one IniParser per boot, as a program keeps it (state kept in it survives
 		// from a read to a later write)
